@@ -54,11 +54,16 @@ if [ "$nfail" -gt 0 ]; then
 fi
 printf 'bounded[tables]: property %s tier %s: explored=%s failures=%s exit=%s %.1fs\n' "$prop" "$tier" "${explored:-0}" "$nfail" "$status" "$(echo "$e - $s" | bc)"
 [ "$repo" = /repo ] && python3 - "$prop" "$tier" "${explored:-0}" "$nfail" "$(echo "$e - $s" | bc)" <<'PY'
+# the bounded stand-in reports inside the property's evidence file (coverage.bounded_stand_in), written after gocv's part
 import json,sys,os
 prop,tier,explored,nfail,wall=sys.argv[1:6]
-p='/verif/evidence/%s.bounded.json'%prop
-json.dump({"property_id":prop,"tier":tier,"level":"bounded","what":"genForDists+setCodes on distance code length vectors, GenerateForHeader+setCodes on code length code vectors, and the whole dynamic-header table construction (setupDynamicHeader) on random complete codes in the three multi-symbol modes, table lookups compared with canonical decoding (see /verif/bounded/*_test.go for the exact bound)",
+p='/verif/evidence/%s.json'%prop
+try: ev=json.load(open(p))
+except Exception: ev={"property_id":prop,"tier":tier,"seed":0,"level":"other","coverage":{},"wall_s":0.0}
+ev.setdefault("coverage",{})["bounded_stand_in"]={"label":"bounded (not proof)","what":"genForDists+setCodes on distance code length vectors, GenerateForHeader+setCodes on code length code vectors, and the whole dynamic-header table construction (setupDynamicHeader) on random complete codes in the three multi-symbol modes; real tables compared with canonical decoding and with the contract predicates (bound stated in /verif/bounded/*_test.go)",
  "explored_inputs":int(explored),"failures":int(nfail),"wall_s":float(wall),
- "bound":{"complete_codes_max_symbols":int(os.environ.get("VERIF_BOUNDED_COMPLETE_SYMS","30")),"incomplete_codes_max_symbols":int(os.environ.get("VERIF_BOUNDED_INCOMPLETE_SYMS","4")),"random_vectors":int(os.environ.get("VERIF_BOUNDED_RANDOM","100000")),"random_headers":int(os.environ.get("VERIF_BOUNDED_HEADERS","10000")),"patterns_per_header":int(os.environ.get("VERIF_BOUNDED_PATTERNS","400"))}},open(p,'w'),indent=1)
+ "bound":{"complete_codes_max_symbols":int(os.environ.get("VERIF_BOUNDED_COMPLETE_SYMS","30")),"incomplete_codes_max_symbols":int(os.environ.get("VERIF_BOUNDED_INCOMPLETE_SYMS","4")),"random_vectors":int(os.environ.get("VERIF_BOUNDED_RANDOM","100000")),"random_headers":int(os.environ.get("VERIF_BOUNDED_HEADERS","10000")),"patterns_per_header":int(os.environ.get("VERIF_BOUNDED_PATTERNS","400"))}}
+ev["wall_s"]=round(float(ev.get("wall_s",0))+float(wall),3)
+json.dump(ev,open(p,'w'),indent=1)
 PY
 exit $status
